@@ -396,7 +396,12 @@ def check(ctx):
     if picked is not None:
         gm = model.func(f"{SER_MOD}.{picked}.serialize")
         refuses = any(isinstance(n, ast.If) and "isinstance(obj, (str, bytes))" in norm(n.test) and any(isinstance(x, ast.Raise) for x in n.body) for n in walk_no_nested(gm.node))
-        delegates = any(isinstance(r, ast.Return) and "super().serialize(obj, path)" in norm(r) for r in walk_no_nested(gm.node))
+        # ... then does what a plain alternative does: the inherited serialize, or its one-line body written out
+        delegates = any(isinstance(r, ast.Return) and ("super().serialize(obj, path)" in norm(r) or "self.method.serialize(obj, path)" in norm(r)) for r in walk_no_nested(gm.node))
+        if not refuses:
+            # the same refusal written the other way round: `if not isinstance(obj, (str, bytes)): return <delegate>` then the raise
+            refuses = any(isinstance(n, ast.If) and norm(n.test) == "not isinstance(obj, (str, bytes))" and not n.orelse and any(isinstance(x, ast.Return) for x in n.body) for n in walk_no_nested(gm.node)) \
+                and isinstance(gm.node.body[-1], ast.Raise)
         ctx.check(refuses and delegates, "C13.R10", f"{gm.qualname}:refuses-str", None, f"{picked} does not raise for str / bytes before delegating: UnionMethod only tries the next alternatives when the matching one raises", gm, gm.node, detail="raise for str / bytes; else super().serialize(obj, path)")
         um10 = model.func(f"{SER_MOD}.UnionMethod.serialize")
         catches = any(isinstance(t_, ast.Try) and any(h.type is None or norm(h.type) in ("Exception", "TypeCheckError", "TypeError") for h in t_.handlers) for t_ in ast.walk(um10.node))
